@@ -185,6 +185,41 @@ def r07_2(ctx):
         loops = sch.enclosing_loops(te[0])
         ok = len(loops) == 2 and ast.unparse(te[0].args[0]) == "stage._method.tr[%s][%s]" % (ast.unparse(loops[0][0]), ast.unparse(loops[1][0]))
     ctx.check(ok, "_grid_integrator_roots times: tr[k][l] in the same order", detail="root times", expected="tr.extend(stage._method.tr[k][l])", found="; ".join(ast.unparse(c) for c in te), fi=h)
+    # every collected value is the evaluator's result for that very point: no value is copied from another point, no point is
+    # skipped on a property of the expression (a parametric expression may still differ from interval to interval)
+    EVALS = ("eval_at_control", "eval_at_integrator", "eval_at_integrator_root")
+    for w, scw in ((f, sc), (g, scg), (h, sch)):
+        vlists = set()
+        for r in walk_no_nested(w.node):
+            if isinstance(r, ast.Return) and isinstance(r.value, ast.Tuple) and len(r.value.elts) == 2:
+                for x in ast.walk(r.value.elts[1]):
+                    if isinstance(x, ast.Name):
+                        nm = x.id
+                        ds = [d for d in scw.defs.get(nm, []) if d.kind == "assign"]
+                        if any(isinstance(d.value, ast.List) for d in ds):
+                            vlists.add(nm)
+                        for d in ds:      # res = cat(sub_expr)
+                            for y in ast.walk(d.value):
+                                if isinstance(y, ast.Name) and any(isinstance(d2.value, ast.List) for d2 in scw.defs.get(y.id, []) if d2.kind == "assign"):
+                                    vlists.add(y.id)
+        if not vlists:
+            raise AnalysisError("%s: collected value list not found" % w.qualname)
+        bad = []
+        for c in walk_no_nested(w.node):
+            if isinstance(c, ast.Call) and isinstance(c.func, ast.Attribute) and isinstance(c.func.value, ast.Name) and c.func.value.id in vlists and c.func.attr in ("append", "extend", "insert"):
+                a = c.args[-1] if c.args else None
+                src = [a]
+                if isinstance(a, ast.Name):
+                    src = [d.value for d in scw.defs.get(a.id, []) if d.kind == "assign"]
+                good = c.func.attr == "append" and src and all(
+                    (isinstance(v, ast.Call) and isinstance(v.func, ast.Attribute) and v.func.attr in EVALS and ast.unparse(v.func.value) == "stage._method") or
+                    (isinstance(v, ast.Call) and ast.unparse(v.func) == "DM.nan") for v in src)
+                flags = [ast.unparse(t) for t, pol in scw.guards(c)]
+                if not good or any(fl not in ("include_first", "include_last") for fl in flags):
+                    bad.append(c)
+        ctx.check(not bad, "%s collects, for every point, the evaluator's own result for that point" % w.name, detail="a sampled value is copied from another point or its evaluation depends on a property of the expression",
+                  expected="%s.append(stage._method.eval_at_*(stage, expr, <indices of the point>)) only, under no condition but include_first/include_last" % sorted(vlists)[0],
+                  found="; ".join("%s%s" % (ast.unparse(b)[:70], (" if " + " and ".join(ast.unparse(t) for t, _ in scw.guards(b))) if scw.guards(b) else "") for b in bad), fi=w, node=bad[0] if bad else None)
     # dispatch of grid names
     s = P.own_method("Stage", "_sample")
     table = {}
@@ -283,7 +318,9 @@ def r07_7(ctx):
 def r07_8(ctx):
     from .layout_rules import collocation_content
     from .c08 import r08_2, r08_9
+    from .c02 import r02_10
     collocation_content(ctx)
+    r02_10(ctx)
     r08_2(ctx)
     r08_9(ctx)
 
